@@ -233,6 +233,20 @@ def apply_env(env: dict) -> None:
         gc.set_threshold(*((60, 3, 3) if mode == "eager" else (700, 10, 10)))
 
 
+class ThreadUnavailable(Exception):
+    """The helper thread could not be started or died before reporting (address space): never a verdict."""
+
+
+def gc_tick() -> None:
+    """Called by the checks between runs: with the collector switched off by the environment swarm,
+    cyclic garbage (exception <-> traceback <-> frame, holding input buffers) is reclaimed here, so a
+    long task cannot run the worker into its address-space limit.  Inside a run nothing is collected."""
+    import gc
+
+    if not gc.isenabled():
+        gc.collect()
+
+
 def call_in_thread(fn, *args):
     """Run fn(*args) in a freshly started thread (not the one that imported kio) and hand its
     result or exception back to the caller."""
@@ -247,10 +261,15 @@ def call_in_thread(fn, *args):
             box["e"] = e
 
     t = threading.Thread(target=run, name="sim-caller-thread")
-    t.start()
+    try:
+        t.start()
+    except (RuntimeError, MemoryError) as e:
+        raise ThreadUnavailable(str(e)) from None
     t.join()
     if "e" in box:
         raise box["e"]
+    if "r" not in box:
+        raise ThreadUnavailable("helper thread ended without a result")
     return box["r"]
 
 
